@@ -64,6 +64,11 @@ fn main() {
             ),
             entry::<sched::SchedScenario>(
                 "C19",
+                "schedule-faulty",
+                "the same with one injected I/O error at a write point of one task: the failed write leaves no trace",
+            ),
+            entry::<sched::SchedScenario>(
+                "C19",
                 "known-put-check-race",
                 "directed schedule: two overlapping plain puts both succeed, the first published object is replaced",
             ),
